@@ -25,13 +25,16 @@ def bstr(v):
     return "".join("1" if int(round(float(x))) else "0" for x in v) or "-"
 
 
-def first(x):
-    return x[0] if isinstance(x, tuple) else x
+def parts(x):
+    """a component may answer with a tuple (e.g. return_errors=True, inverse_encode): every part is a per-member result"""
+    return list(x) if isinstance(x, tuple) else [x]
 
 
 class Comp:
-    def __init__(self, name, site, f, members, item_dims=1, others=None, float_out=False, grouping=True, cfg=None, line=None):
+    def __init__(self, name, site, f, members, item_dims=1, others=None, float_out=False, grouping=True, cfg=None, line=None, int_dtypes=False, group_rows=None):
         self.name, self.site, self.f, self.members = name, site, f, members
+        self.int_dtypes = int_dtypes          # hard bit inputs: the same answer for int32 / int64 tensors, which must stay untouched
+        self.group_rows = group_rows          # extra (B, m*n) row compositions (lists of member indices) for special paths
         self.item_dims, self.float_out, self.grouping = item_dims, float_out, grouping
         self.cfg = cfg or {}
         self.line = line          # optional: row tensor -> (op line) for components with a Lean model
@@ -51,20 +54,23 @@ def check_component(ctx, comp, ops):
     """runs the purity relations for one component; appends one op per relation (prop_ok) and model lines where available"""
     import torch
     rng = ctx.rng
-    f, M = (lambda x: first(quiet(comp.f, x))), comp.members
+    f, M = (lambda x: parts(quiet(comp.f, x))), comp.members
     site = comp.site
+    sameP = lambda ys, ws: len(ys) == len(ws) and all(same(a_, b_, comp.float_out) for a_, b_ in zip(ys, ws))
 
     def rec(rel, ok, **extra):
         ops.append(Op("gray 0", "0", nontrivial=False, info={"site": site, "config": dict(comp.cfg, component=comp.name, relation=rel, **extra)}, prop_ok=bool(ok)))
         ctx.count("rel_" + rel)
-    # members alone (batch of one)
+    # members alone (batch of one): singles[i] = list of parts
     singles = []
     for m in M:
         try:
-            singles.append(f(m.unsqueeze(0).clone())[0])
+            singles.append([p_[0] for p_ in f(m.unsqueeze(0).clone())])
         except ERRS as e:
             rec("single", False, error="%s: %s" % (type(e).__name__, str(e)[:120]))
             return
+    nparts = len(singles[0])
+    stackS = lambda idx: [torch.stack([singles[i][p_] for i in idx]) for p_ in range(nparts)]
     # batches of 2..6 in several orders
     for B in range(2, min(6, len(M)) + 1):
         idx_sets = [list(range(B))]
@@ -77,35 +83,63 @@ def check_component(ctx, comp, ops):
             before = x.clone()
             try:
                 y = f(x)
-                ok = all(same(y[j], singles[i], comp.float_out) for j, i in enumerate(idx)) and y.shape[0] == B
-                bad = next((j for j, i in enumerate(idx) if not same(y[j], singles[i], comp.float_out)), None)
+                bad = next((j for j, i in enumerate(idx) if not all(y[p_].shape[0] == B and same(y[p_][j], singles[i][p_], comp.float_out) for p_ in range(nparts))), None) if len(y) == nparts else "parts"
+                ok = bad is None
             except ERRS as e:
                 ok, bad = False, "%s: %s" % (type(e).__name__, str(e)[:100])
             unchanged = bool(torch.equal(x, before)) if not x.is_floating_point() else bool(((x == before) | (x.isnan() & before.isnan())).all())
             rec("batch", ok and unchanged, B=B, order=idx, first_bad_member=bad, input_unchanged=unchanged)
-    x = torch.stack(M[: min(4, len(M))])
-    want = torch.stack(singles[: min(4, len(M))])
+    nb = min(4, len(M))
+    x = torch.stack(M[:nb])
+    want = stackS(range(nb))
     # repeated / interleaved calls on the same object
     try:
         y1 = f(x.clone()); _ = f(torch.stack(M[::-1][: min(3, len(M))]).clone()); _ = f(M[-1].unsqueeze(0).clone()); y2 = f(x.clone())
-        rec("repeat", same(y1, want, comp.float_out) and same(y2, want, comp.float_out))
+        rec("repeat", sameP(y1, want) and sameP(y2, want))
     except ERRS as e:
         rec("repeat", False, error="%s: %s" % (type(e).__name__, str(e)[:100]))
+    # integer dtypes: same answer, input untouched
+    if comp.int_dtypes:
+        for dt in (torch.int32, torch.int64):
+            xi = x.to(dt)
+            before = xi.clone()
+            try:
+                yi = [p_.to(torch.float64) for p_ in f(xi)]
+                w64 = [p_.to(torch.float64) for p_ in want]
+                ok = sameP(yi, w64)
+                again = [p_.to(torch.float64) for p_ in f(xi)]
+                rec("dtype", ok and bool(torch.equal(xi, before)) and sameP(again, w64), dtype=str(dt), input_unchanged=bool(torch.equal(xi, before)))
+            except ERRS:
+                rec("dtype", True, dtype=str(dt), outcome="rejected")
+
+    def grouped(rows, **extra):
+        xg = torch.stack([torch.cat([M[i] for i in row]) for row in rows])
+        try:
+            y = f(xg.clone())
+            w = [torch.stack([torch.cat([singles[i][p_].reshape(-1) for i in row]) for row in rows]) for p_ in range(nparts)]
+            ok = len(y) == nparts and all(same(y[p_].reshape(len(rows), -1), w[p_], comp.float_out) for p_ in range(nparts))
+            rec("layout_grouped", ok, outcome="answered", **extra)
+            return xg, y, ok
+        except ERRS:
+            rec("layout_grouped", True, outcome="rejected", **extra)
+            return None
     # layouts: each must agree with per-member evaluation or raise
     if comp.item_dims == 1:
+        for rows in (comp.group_rows or []):
+            grouped(rows, row_members=rows)
         # 1-D
         try:
             y = f(M[0].clone())
-            rec("layout_1d", same(y.reshape(-1), singles[0].reshape(-1), comp.float_out), outcome="answered")
+            rec("layout_1d", len(y) == nparts and all(same(y[p_].reshape(-1), singles[0][p_].reshape(-1), comp.float_out) for p_ in range(nparts)), outcome="answered")
         except ERRS:
             rec("layout_1d", True, outcome="rejected")
         # (B1, B2, n)
-        if len(M) >= 4 and comp.grouping:       # for per-item constraints (B1, B2, n) is B1 items of shape (B2, n): covered by item_dims = 2
+        if len(M) >= 4 and comp.grouping:       # for per-item constraints (B1, B2, n) is B1 items of shape (B2, n)
             x3 = torch.stack(M[:4]).reshape(2, 2, -1)
             try:
                 y = f(x3.clone())
-                w = torch.stack(singles[:4])
-                rec("layout_3d", tuple(y.shape[:2]) == (2, 2) and same(y.reshape(4, -1), w.reshape(4, -1), comp.float_out), outcome="answered")
+                w = stackS(range(4))
+                rec("layout_3d", len(y) == nparts and all(tuple(y[p_].shape[:2]) == (2, 2) and same(y[p_].reshape(4, -1), w[p_].reshape(4, -1), comp.float_out) for p_ in range(nparts)), outcome="answered")
             except ERRS:
                 rec("layout_3d", True, outcome="rejected")
         # (B, m*n): blocks grouped along the last dimension
@@ -114,17 +148,11 @@ def check_component(ctx, comp, ops):
                 rows = [list(range(r * m_, r * m_ + m_)) for r in range(len(M) // m_)][:3]
                 if not rows:
                     continue
-                xg = torch.stack([torch.cat([M[i] for i in row]) for row in rows])
-                try:
-                    y = f(xg.clone())
-                    w = torch.stack([torch.cat([singles[i].reshape(-1) for i in row]) for row in rows])
-                    ok = same(y.reshape(len(rows), -1), w, comp.float_out)
-                    rec("layout_grouped", ok, blocks_per_row=m_, outcome="answered")
-                    if comp.line is not None and ok is not None:
-                        for r_, row in enumerate(rows):
-                            ops.append(Op(comp.line(xg[r_]), bstr(y.reshape(len(rows), -1)[r_].tolist()), nontrivial=True, info={"site": site, "config": dict(comp.cfg, component=comp.name, relation="model_blockwise", blocks_per_row=m_)}))
-                except ERRS:
-                    rec("layout_grouped", True, blocks_per_row=m_, outcome="rejected")
+                res = grouped(rows, blocks_per_row=m_)
+                if res is not None and comp.line is not None and nparts == 1:
+                    xg, y, ok = res
+                    for r_, row in enumerate(rows):
+                        ops.append(Op(comp.line(xg[r_]), bstr(y[0].reshape(len(rows), -1)[r_].tolist()), nontrivial=True, info={"site": site, "config": dict(comp.cfg, component=comp.name, relation="model_blockwise", blocks_per_row=m_)}))
 
 
 def fec_components(ctx):
@@ -161,23 +189,36 @@ def fec_components(ctx):
         cfg = {"code": name, "n": n, "k": k}
         if name not in enc_seen:
             enc_seen.add(name)
-            comps.append(Comp("encoder", "fec.encoders:%s" % type(enc).__name__, enc, Mm, cfg=cfg, line=lambda row, nm=name: "enc %s %s" % (nm, bstr(row.tolist()))))
+            comps.append(Comp("encoder", "fec.encoders:%s" % type(enc).__name__, enc, Mm, cfg=cfg, int_dtypes=True, line=lambda row, nm=name: "enc %s %s" % (nm, bstr(row.tolist()))))
             comps.append(Comp("inverse_encode", "fec.encoders:%s.inverse_encode" % type(enc).__name__, enc.inverse_encode, cws, cfg=cfg,
                               line=(lambda row, nm=name: "inv %s %s" % (nm, bstr(row.tolist()))) if c.family not in ("hamming", "reed_muller") else None))
             comps.append(Comp("calculate_syndrome", "fec.encoders:%s.calculate_syndrome" % type(enc).__name__, enc.calculate_syndrome, words, cfg=cfg) if n - k <= 14 and c.family != "reed_muller" else None)
         if kind == "ml":
-            comps.append(Comp("BruteForceMLDecoder", "fec.decoders:BruteForceMLDecoder", D_.BruteForceMLDecoder(enc), words, cfg=cfg, line=lambda row, nm=name: "ml %s %s" % (nm, bstr(row.tolist()))))
+            comps.append(Comp("BruteForceMLDecoder", "fec.decoders:BruteForceMLDecoder", D_.BruteForceMLDecoder(enc), words, cfg=cfg, int_dtypes=True, line=lambda row, nm=name: "ml %s %s" % (nm, bstr(row.tolist()))))
         elif kind == "syn":
-            comps.append(Comp("SyndromeLookupDecoder", "fec.decoders:SyndromeLookupDecoder", D_.SyndromeLookupDecoder(enc), words, cfg=cfg, line=lambda row, nm=name: "syndec %s %s" % (nm, bstr(row.tolist()))))
+            comps.append(Comp("SyndromeLookupDecoder(return_errors)", "fec.decoders:SyndromeLookupDecoder", (lambda w_, dd_=D_.SyndromeLookupDecoder(enc): dd_(w_, return_errors=True)), words, cfg=cfg))
+            comps.append(Comp("SyndromeLookupDecoder", "fec.decoders:SyndromeLookupDecoder", D_.SyndromeLookupDecoder(enc), words, cfg=cfg, int_dtypes=True, line=lambda row, nm=name: "syndec %s %s" % (nm, bstr(row.tolist()))))
         elif kind == "bm":
-            comps.append(Comp("BerlekampMasseyDecoder", "fec.decoders:BerlekampMasseyDecoder", D_.BerlekampMasseyDecoder(enc), words, cfg=cfg))
+            comps.append(Comp("BerlekampMasseyDecoder", "fec.decoders:BerlekampMasseyDecoder", D_.BerlekampMasseyDecoder(enc), words, cfg=cfg, int_dtypes=True))
+            comps.append(Comp("BerlekampMasseyDecoder(return_errors)", "fec.decoders:BerlekampMasseyDecoder", (lambda w_, dd_=D_.BerlekampMasseyDecoder(enc): dd_(w_, return_errors=True)), words, cfg=cfg))
         elif kind == "reed":
-            comps.append(Comp("ReedMullerDecoder", "fec.decoders:ReedMullerDecoder", D_.ReedMullerDecoder(enc), words, cfg=cfg))
+            comps.append(Comp("ReedMullerDecoder", "fec.decoders:ReedMullerDecoder", D_.ReedMullerDecoder(enc), words, cfg=cfg, int_dtypes=True))
+            comps.append(Comp("ReedMullerDecoder(return_errors)", "fec.decoders:ReedMullerDecoder", (lambda w_, dd_=D_.ReedMullerDecoder(enc): dd_(w_, return_errors=True)), words, cfg=cfg))
             comps.append(Comp("ReedMullerDecoder(soft)", "fec.decoders:ReedMullerDecoder", D_.ReedMullerDecoder(enc, input_type="soft"), [(1 - 2 * w) * rng.uniform(0.5, 3.0) for w in words], cfg=cfg))
     # soft-input decoders
     spc = E_.SingleParityCheckCodeEncoder(4)
     soft = lambda enc, kk: [(1 - 2 * enc(torch.tensor([[rng.getrandbits(1) for _ in range(kk)]], dtype=torch.float32))[0]) * torch.tensor([rng.uniform(0.3, 4.0) * (1 if rng.random() > 0.15 else -0.2) for _ in range(enc.code_length)]) for _ in range(8)]
-    comps.append(Comp("WagnerSoftDecisionDecoder", "fec.decoders:WagnerSoftDecisionDecoder", D_.WagnerSoftDecisionDecoder(spc), soft(spc, 4), cfg={"code": "spc4"}))
+    # Wagner members: 0-3 have odd hard-decision parity (one weak wrong sign), 4-7 even parity; rows made of odd blocks only, even only, mixed
+    wm = []
+    for i in range(8):
+        cw = spc(torch.tensor([[rng.getrandbits(1) for _ in range(4)]], dtype=torch.float32))[0]
+        l = (1 - 2 * cw) * torch.tensor([rng.uniform(0.5, 4.0) for _ in range(5)])
+        if i < 4:
+            p_ = rng.randrange(5); l[p_] = -0.1 * l[p_]
+        wm.append(l)
+    wrows = [[[0, 1], [2, 3]], [[0, 1, 2, 3]], [[4, 5], [6, 7]], [[0, 4], [5, 1]], [[0, 1], [4, 5]]]
+    comps.append(Comp("WagnerSoftDecisionDecoder", "fec.decoders:WagnerSoftDecisionDecoder", D_.WagnerSoftDecisionDecoder(spc), wm, cfg={"code": "spc4"}, group_rows=wrows))
+    comps.append(Comp("WagnerSoftDecisionDecoder(return_errors)", "fec.decoders:WagnerSoftDecisionDecoder", (lambda w_, dd_=D_.WagnerSoftDecisionDecoder(spc): dd_(w_, return_errors=True)), wm, cfg={"code": "spc4"}, group_rows=wrows))
     ham = E_.HammingCodeEncoder(3)
     comps.append(Comp("BeliefPropagationDecoder", "fec.decoders:BeliefPropagationDecoder", D_.BeliefPropagationDecoder(ham, bp_iters=4), soft(ham, 4), cfg={"code": "hamming3"}))
     comps.append(Comp("MinSumLDPCDecoder", "fec.decoders:MinSumLDPCDecoder", D_.MinSumLDPCDecoder(ham, bp_iters=4, normalized=True), soft(ham, 4), cfg={"code": "hamming3"}))
